@@ -10,6 +10,8 @@ type stats struct {
 	matchCount    uint64
 	transmitted   [100]bool
 	transmitCount int
+	// A matching line was dropped since the last transmitted one.
+	dropped bool
 }
 
 // Return the total line count.
@@ -19,7 +21,16 @@ func (f *stats) totalLineCount() uint64 {
 
 // Calculate the percentage of log lines transmitted to the client.
 func (f *stats) transmittedPerc() int {
-	return int(percentOf(float64(f.matchCount), float64(f.transmitCount)))
+	perc := int(percentOf(float64(f.matchCount), float64(f.transmitCount)))
+	// A drop has to show in the next transmitted line, also when more than 100
+	// further lines went by in between and its slot got reused meanwhile.
+	if f.dropped {
+		f.dropped = false
+		if perc > 99 {
+			perc = 99
+		}
+	}
+	return perc
 }
 
 // Update bucket position. We only take into consideration the last 100
@@ -59,6 +70,11 @@ func (f *stats) updateLineNotTransmitted() {
 		f.transmitCount--
 		f.transmitted[f.pos] = false
 	}
+}
+
+// Remember that a matching line could not be transmitted (client too slow).
+func (f *stats) updateLineDropped() {
+	f.dropped = true
 }
 
 func percentOf(total float64, value float64) float64 {
